@@ -760,8 +760,12 @@ func runValidator(o *out, r *rng, thorough bool, pid string) {
 				case 1:
 					x = e.invalidChain()
 					xKind = "chain-invalid"
+				case 2:
+					// the announced (non-zero) key is answered with the empty chain: a vote for bottom must not get through
+					x = &gpbft.ECChain{}
+					xKind = "chain-empty"
 				}
-				if x.IsZero() {
+				if x.IsZero() && xKind != "chain-empty" {
 					x = e.chains[2]
 					xKind = "chain-base"
 				}
